@@ -293,6 +293,23 @@ func (sp *Space) Filter(s State, atom int, mask uint32) State {
 
 // Widen forgets the value of atom.
 func (sp *Space) Widen(s State, atom int) State {
+	return Intersect(sp.widenRaw(s, atom), sp.consistent)
+}
+
+// WidenAll forgets the values of all the given atoms AT ONCE. Forgetting coupled atoms one after the other is not the
+// same: the consistency closure (mirror atoms, transitivity over shared terms) would re-derive each forgotten atom
+// from the ones that are still to be forgotten.
+func (sp *Space) WidenAll(s State, atoms []int) State {
+	if len(atoms) == 0 {
+		return s
+	}
+	for _, a := range atoms {
+		s = sp.widenRaw(s, a)
+	}
+	return Intersect(s, sp.consistent)
+}
+
+func (sp *Space) widenRaw(s State, atom int) State {
 	if s == nil {
 		return nil
 	}
@@ -309,7 +326,7 @@ func (sp *Space) Widen(s State, atom int) State {
 			o[q/64] |= 1 << (q % 64)
 		}
 	}
-	return Intersect(o, sp.consistent)
+	return o
 }
 
 // Assign sets atom to val in every point.
